@@ -620,3 +620,32 @@ func isZeroConst(v ssa.Value) bool {
 	}
 	return k.Value.Kind() == constant.Int && constant.Sign(k.Value) == 0
 }
+
+// paramRef returns how the idx-th parameter is referred to in descriptions inside fn: "p<idx>", or the description
+// of the local it is spilled to (by-value struct parameters whose address is taken) when that local is written only by the spill.
+func paramRef(fn *ssa.Function, idx int) (string, *ssa.Alloc) {
+	if idx >= len(fn.Params) {
+		return fmt.Sprintf("p%d", idx), nil
+	}
+	p := fn.Params[idx]
+	for _, u := range referrersOf(p) {
+		st, ok := u.(*ssa.Store)
+		if !ok || st.Val != p {
+			continue
+		}
+		al, ok := st.Addr.(*ssa.Alloc)
+		if !ok {
+			continue
+		}
+		whole := 0
+		for _, u2 := range referrersOf(al) {
+			if s2, ok := u2.(*ssa.Store); ok && s2.Addr == al {
+				whole++
+			}
+		}
+		if whole == 1 {
+			return desc(al), al
+		}
+	}
+	return fmt.Sprintf("p%d", idx), nil
+}
